@@ -527,3 +527,10 @@ def m_panic(ctx):
 @model(r'^<.* as ToString>::to_string$|^<.* as std::fmt::Display>::fmt$')
 def m_display_to_string(ctx):
     ctx.eng.opaque_calls.add('ToString::to_string of a non-string value'); return ctx.ret(Opaque(f'text{fresh_id()}'))
+
+@model(r'^(?:std::option::)?Option::<(?:std::result::)?Result<.*>>::transpose$')
+def m_opt_transpose(ctx):
+    s_, p = opt_parts(ctx, ctx.args[0])
+    if p is None: return ctx.ret(ok(none()))
+    is_ok, o, e = res_parts(ctx, p)
+    return ctx.forks([(Not(s_), ok(none())), (And(s_, is_ok), ok(some(o))), (And(s_, Not(is_ok)), err(e))])
